@@ -24,13 +24,14 @@ import (
 func TestC48(t *testing.T) {
 	m := mon.New(t, "C48")
 	defer m.Done()
-	m.Rule("streams: roundtrip = random ocsp.Response templates (status × reason × time classes × serial classes incl. >64-bit and leading 0x80/0xff × extensions × issuer hash × signature algorithm × responder = issuer|delegate × embedded cert) through CreateResponse → ParseResponse/ParseResponseForCert, compared with the template, with an independent DER walker (ref/ocspref) and with a stdlib signature check over the walker's tbs bytes; clock = CreateResponse inside a testing/synctest bubble at chosen instants (ProducedAt); binding = who-signed-what scenarios (issuer/delegate/attacker/other CA × embedded certificate lists × verifying certificate) produced by CreateResponse or by the walker's TLV builder, verdict from key identities known by construction; mutate = EVERY byte of base responses altered (xor 1, xor random, …) and re-parsed with the issuer, region of the byte from the walker; multi = built multi-status responses through ParseResponseForCert; totality = random DER, spliced/truncated/mutated responses through all parsers; request = CreateRequest/Marshal → ParseRequest; ossl-* = OpenSSL verifies/prints Go-created responses and Go parses OpenSSL-created ones. Distinct key = stream + class tuple (key kind, alg, serial/time class, scenario, region); non-trivial = reached an oracle comparison")
+	m.Rule("streams: roundtrip = random ocsp.Response templates (status × reason × time classes × serial classes incl. >64-bit and leading 0x80/0xff × extensions × issuer hash × signature algorithm × responder = issuer|delegate × embedded cert) through CreateResponse → ParseResponse/ParseResponseForCert, compared with the template, with an independent DER walker (ref/ocspref) and with a stdlib signature check over the walker's tbs bytes; clock = CreateResponse inside a testing/synctest bubble at chosen instants (ProducedAt); binding = who-signed-what scenarios (issuer/delegate/attacker/other CA × embedded certificate lists × verifying certificate) produced by CreateResponse or by the walker's TLV builder, verdict from key identities known by construction; mutate = EVERY byte of base responses altered (xor 1, xor random, …) and re-parsed with the issuer, region of the byte from the walker; relabel = valid direct and delegated responses whose unsigned outer signatureAlgorithm is rewritten (lengths re-encoded) to each of 24 OIDs × 4 parameter forms (MD2/MD4/MD5/SHA-1/SHA-2 with RSA, RSASSA-PSS, DSA, ECDSA, Ed25519/Ed448, digest OIDs, unknown arcs), once with the original tbs and once with the tbs of another response (good instead of revoked): acceptance through ParseResponse/ParseResponseForCert/CheckSignatureFrom is a violation unless a stdlib verification under the STATED algorithm succeeds; multi =built multi-status responses through ParseResponseForCert; totality = random DER, spliced/truncated/mutated responses through all parsers; request = CreateRequest/Marshal → ParseRequest; ossl-* = OpenSSL verifies/prints Go-created responses and Go parses OpenSSL-created ones. Distinct key = stream + class tuple (key kind, alg, serial/time class, scenario, region); non-trivial = reached an oracle comparison")
 	m.Assume("crypto/x509, crypto/rsa, crypto/ecdsa, encoding/asn1 (standard library) are trusted; ref/ocspref walker/builder is validated by its own tests (real-world response, OpenSSL accepts its output); key identities in the harness decide who signed what")
 	w := &c48w{t: t, m: m}
 	w.roundtrip()
 	w.clock()
 	w.binding()
 	w.mutate()
+	w.relabel()
 	w.multi()
 	w.totality()
 	w.request()
@@ -48,6 +49,11 @@ func TestC48(t *testing.T) {
 	m.Gate("bind_wrong_issuer", m.N(150, 3000), "correctly signed responses checked against another CA")
 	m.Gate("mut_signed_region", m.N(10000, 200000), "mutations inside tbsResponseData/signature/delegate cert tbs+signature")
 	m.Gate("mut_bases_complete", m.N(8, 72), "base responses whose every byte was mutated")
+	m.Gate("relabel_bases:direct", m.N(32, 800), "issuer-signed base responses put through the signatureAlgorithm relabelling table")
+	m.Gate("relabel_bases:delegated", m.N(32, 800), "delegate-signed base responses put through the relabelling table")
+	m.Gate("relabel_must_reject:forged", m.N(15000, 400000), "relabelled responses carrying a tbs the signature was not made for")
+	m.Gate("relabel_must_reject:intact", m.N(15000, 400000), "relabelled responses whose stated algorithm is not the one used")
+	m.Gate("relabel_weak_digest_cases", m.N(5000, 120000), "relabelling to MD2/MD5/SHA-1 algorithms")
 	m.Gate("multi_cases", m.N(80, 2000), "multi-status responses")
 	m.Gate("total_inputs", m.N(6000, 200000), "hostile inputs through the parsers")
 	m.Gate("req_compared", m.N(180, 4500), "request round trips")
